@@ -61,6 +61,8 @@ type batchScn struct {
 	// special behaviours
 	park    []int      // items that park (scheduler-visible) until a terminal failure has been handled
 	barrier []int      // items that block until all of them have arrived (C08 usability)
+	fast    []int      // items whose exec does not take execDur (they finish while the others are still running)
+	stagger bool       // item i takes (i+1)*execDur
 	cancel  cancelSpec // cancellation injection
 	// oracle groups
 	chkPositional, chkPerItem, chkLimit, chkStop, chkCancel, chkAction, chkWait bool
@@ -525,8 +527,12 @@ func (b *BR) onExec(ctx context.Context, v any, argIsErr bool) answer {
 	if sc.yield {
 		core.Yield()
 	}
-	if sc.execDur > 0 {
-		core.Sleep(sc.execDur)
+	if sc.execDur > 0 && !contains(sc.fast, i) {
+		d := sc.execDur
+		if sc.stagger {
+			d *= time.Duration(i + 1) // distinct completion instants: far fewer equivalent wake-up orders
+		}
+		core.Sleep(d)
 	}
 	// ---- C08 usability: mutually dependent items
 	if contains(sc.barrier, i) && k == 0 {
